@@ -86,7 +86,7 @@ def threshold_proportional(W, p, copy=True):
     n = len(W)						# number of nodes
     np.fill_diagonal(W, 0)			# clear diagonal
 
-    if np.allclose(W, W.T):				# if symmetric matrix
+    if np.allclose(W, W.T, atol=1e-8 * np.max(np.abs(W), initial=0)):		# if symmetric matrix
         W[np.tril_indices(n)] = 0		# ensure symmetry is preserved
         ud = 2						# halve number of removed links
     else:
